@@ -21,6 +21,11 @@ AREA = "tendril_decode"
 DEC = "Utf8LossyDecoder<Sink,A>[TendrilSink<fmt::Bytes,A>]"
 
 
+def _is_rep(x):
+    """the replacement character, by name (closure text of older trees) or by value (constants are substituted)"""
+    return "REPLACEMENT_CHARACTER" in x or "\ufffd" in x
+
+
 def r10_1(ctx):
     n = 0
     for fn in ("process", "finish"):
@@ -30,20 +35,20 @@ def r10_1(ctx):
             t = nfq.texts(pc)
             # also the text of closures (the completion branch lives in a closure)
             for i, x in enumerate(t):
-                is_rep = x.startswith("self.inner_sink.process(") and "REPLACEMENT_CHARACTER" in x
+                is_rep = x.startswith("self.inner_sink.process(") and _is_rep(x)
                 is_err = x.startswith("self.inner_sink.error(")
                 if is_rep:
                     n += 1
                     if not (i > 0 and t[i - 1].startswith("self.inner_sink.error(")):
                         bad = "replacement without a preceding error report: " + " ; ".join(t[max(0, i - 2):i + 1])
                 if is_err:
-                    if not (i + 1 < len(t) and t[i + 1].startswith("self.inner_sink.process(") and "REPLACEMENT_CHARACTER" in t[i + 1]):
+                    if not (i + 1 < len(t) and t[i + 1].startswith("self.inner_sink.process(") and _is_rep(t[i + 1])):
                         bad = "error report not followed by a replacement character: " + " ; ".join(t[i:i + 2])
             blob = " ".join(t) + " " + " ".join(pc["guards"])
             for m in re.finditer(r"\|\.\.\|\{(.*?)\}\)", blob):
                 body = m.group(1)
                 errs = len(re.findall(r"inner_sink\.error\(", body))
-                reps = len(re.findall(r"inner_sink\.process\(from_slice\(REPLACEMENT_CHARACTER\)\)", body))
+                reps = len(re.findall(r"inner_sink\.process\(from_slice\((?:REPLACEMENT_CHARACTER|\"\ufffd\")\)\)", body))
                 if errs != reps:
                     bad = "closure reports %d errors for %d replacement characters" % (errs, reps)
                 n += reps
@@ -83,7 +88,7 @@ def r10_3(ctx):
     ok = True
     for pc in nfq.feasible(pcs):
         pending = pc["guards"].get("self.incomplete.is_some()")
-        reps = sum(1 for x in nfq.texts(pc) if "REPLACEMENT_CHARACTER" in x)
+        reps = sum(1 for x in nfq.texts(pc) if _is_rep(x))
         fin = nfq.names(pc)[-1:] == ["self.inner_sink.finish"]
         if pending is None or reps != (1 if pending else 0) or not fin:
             ok = False
